@@ -33,9 +33,11 @@ def normalise(v):
     if isinstance(v, bool):
         return v
     if isinstance(v, float):
-        if v == int(v) and abs(v) < 2 ** 53:
-            return int(v)
-        return v
+        # openpyxl writes numbers with 16 significant digits; a text without '.' or exponent is read back as an int
+        t = '%.16g' % v
+        if t.lstrip('-').isdigit():
+            return int(t)
+        return float(t)
     if isinstance(v, datetime.datetime):
         return v
     if isinstance(v, datetime.date):
@@ -73,7 +75,7 @@ def run_spec(spec, rec=None):
                 exp[(c, r)] = formula_value(v['$arr'][1])
             else:
                 exp[(c, r)] = normalise(v)
-        model['sheets'].append({'title': sh['title'], 'cells': cells})
+        model['sheets'].append({'title': sh['title'], 'cells': cells, **({'dimension': sh['dimension']} if sh.get('dimension') else {})})
         expect.append(exp)
     path = wbk.write_xlsx(model)
     fails = []
@@ -100,8 +102,15 @@ def run_spec(spec, rec=None):
                 fail('translates', 'translate:raises:' + o[1], 'source text', wbk.show_outcome(o))
             return fails
         src = o[1]
-        cls_a = wbk.load_source(src)
-        cls_b = wbk.load_file(src)
+        ol = wbk.outcome(lambda: (wbk.load_source(src), wbk.load_file(src)))
+        if ol[0] != 'value':
+            if ol[0] == 'timeout':
+                if rec:
+                    rec.count('source_too_large_inconclusive')
+            else:
+                fail('translation-loads', 'load:' + ol[1], 'a loadable class', wbk.show_outcome(ol))
+            return fails
+        cls_a, cls_b = ol[1]
         inst = cls_a()
         titles = inst.get_titles()
         exp_titles = {sh['title']: i for i, sh in enumerate(spec['sheets'])}
@@ -210,7 +219,10 @@ def strategy():
                     v = {'$arr': [f'{wbk.a1(c, r)}:{wbk.a1(c, r)}', v]}
                     arr_used = True
                 cells[(c, r)] = v
-            sheets.append({'title': t, 'cells': [[c, r, v] for (c, r), v in sorted(cells.items())]})
+            sh_ = {'title': t, 'cells': [[c, r, v] for (c, r), v in sorted(cells.items())]}
+            if cells and draw(st.integers(0, 3)) == 0:
+                sh_['dimension'] = draw(st.sampled_from(['A1:A1', 'A1:B2', 'B2:C3', 'A1:A2']))   # written into the file instead of the true extent
+            sheets.append(sh_)
         return {'sheets': sheets, 'extra_probes': 6}
     return spec()
 
